@@ -392,7 +392,7 @@ def dot_channels(a: Tensor, b: Tensor, weight: Optional[Tensor] = None) -> Tenso
     c = a * b
     if weight is not None:
         c *= weight
-    return c.view(c.shape[0], c.shape[1], -1).sum(dim=2)
+    return c.flatten(2).sum(dim=2)
 
 
 def downsample(
